@@ -32,7 +32,7 @@ TRUSTED = [
     "nver (number of version-table statements per step) and createVT/dropVT are read from the implementation run and passed to the model as parameters; the theorems hold for every value of them",
 ]
 RULE = (
-    "(dialect_name for 5 dialects | mssql/oracle with their batch separator emptied or customised | live SQLite connection, fresh or already in a transaction) x transactional_ddl override x transaction_per_migration x history x command(upgrade/downgrade/stamp) "
+    "(dialect_name for 5 dialects | mssql/oracle with their batch separator emptied or customised | output_encoding with a binary buffer | live SQLite connection, fresh or already in a transaction) x transactional_ddl override x transaction_per_migration x history x command(upgrade/downgrade/stamp) "
     "x bodies with 0-2 autocommit blocks; a case is non-trivial when the plan has >=1 step; distinct by "
     "(dialect, override, per_migration, token stream)"
 )
@@ -100,7 +100,9 @@ def _live_connection(in_txn):
 
 def run_impl(dialect, override, per_mig, hist, cmd, target, start_rows, bodies, conn_mode=None, dopts=None):
     """returns dict(toks, migs(for the model), dropVT, tddl, steps) or dict(err=...)"""
-    buf = io.StringIO()
+    # with output_encoding the context wraps a *binary* buffer in an encoding writer of its own
+    enc = (dopts or {}).get("output_encoding")
+    buf = io.BytesIO() if enc else io.StringIO()
     holder = {}
 
     def mk_body(rev, segs):
@@ -180,7 +182,8 @@ def run_impl(dialect, override, per_mig, hist, cmd, target, start_rows, bodies, 
             rev_index[("stamp_revision", *st.short_log.split(" ", 1)[1].split(" -> "))] = i
             segs = []
         migs.append({"segs": [{"kind": k, "n": n} for k, n in segs]})
-    toks, unknown = tokenise(buf.getvalue(), rev_index, seps=tuple(v for v in (dopts or {}).values() if v))
+    text_out = buf.getvalue().decode(enc) if enc else buf.getvalue()
+    toks, unknown = tokenise(text_out, rev_index, seps=tuple(v for k, v in (dopts or {}).items() if v and k != "output_encoding"))
     before = [sorted(start_rows)] + heads_after[:-1]
     for i, m in enumerate(migs):
         m["nver"] = sum(1 for t in toks if t == "version:%d" % i)
@@ -193,7 +196,7 @@ def run_impl(dialect, override, per_mig, hist, cmd, target, start_rows, bodies, 
         "dropVT": not final,
         "tddl": bool(ctx.impl.transactional_ddl),
         "nsteps": len(steps_seen),
-        "text": buf.getvalue(),
+        "text": text_out,
     }
 
 
@@ -287,8 +290,10 @@ def run(ctx, n_cases=None, rng_name="main"):
                     one_case(ctx, d, ov, pm, hist, cmd, target, rows, bodies, pending)
         # the dialects' own offline options: batch separator switched off / customised
         for d, dopts in (("mssql", {"mssql_batch_separator": ""}), ("mssql", {"mssql_batch_separator": "BYE"}),
-                         ("oracle", {"oracle_batch_separator": ""}), ("oracle", {"oracle_batch_separator": "RUN"})):
-            for ov in (None, False):
+                         ("oracle", {"oracle_batch_separator": ""}), ("oracle", {"oracle_batch_separator": "RUN"}),
+                         ("postgresql", {"output_encoding": "utf-8"}), ("mssql", {"output_encoding": "utf-8"}),
+                         ("sqlite", {"output_encoding": "latin-1"})):
+            for ov in ((None, True) if d == "sqlite" else (None, False)):
                 for pm in (False, True):
                     one_case(ctx, d, ov, pm, hist, cmd, target, rows, bodies, pending, dopts=dopts)
         # offline mode configured with a live connection (SQLite is the only live backend here),
